@@ -52,6 +52,13 @@ let handle (line : string) : string =
     let dests = String.concat "|" (List.map (fun chunks ->
       if chunks = [] then "." else String.concat "," (List.map hex_of_bytes chunks)) r.wdests) in
     Printf.sprintf "W %d %s %s" (if r.woob then 1 else 0) (if res = "" then "-" else res) dests
+  | ["R"; dict; data; term] ->
+    (* reader model on one delivery of all the bytes (the result does not depend on the chunking:
+       theorem schedule_independent), then the terminal behaviour of the source *)
+    let t = if term = "eof" then TEOF else TErr (n_of_int (int_of_string (String.sub term 1 (String.length term - 1)))) in
+    let o = rrun (bytes_of_hex dict) [bytes_of_hex data] t in
+    let e = match o.rerror with REOF -> "EOF" | RUnexpectedEOF -> "UEOF" | RCorrupt -> "CORRUPT" | RSrc n -> "SRC" ^ string_of_int (int_of_n n) in
+    Printf.sprintf "R %s %s %d" e (hex_of_bytes o.rbytes) (int_of_n o.rconsumed)
   | _ -> "ERR bad request"
 
 let () =
